@@ -357,6 +357,19 @@ static void run_comp() {
             auto params = [&] { ptree p; p.put("block_size", 2); p.put("pprecond.coarsening.type", "aggregation"); p.put("pprecond.relax.type", "spai0"); p.put("pprecond.coarse_enough", 1); p.put("sprecond.type", rl); return p; };
             if (!drs) compare_shuffled("cpr", rl, key, s, LIM, [&](const Sys &m) { return applier(std::make_shared<preconditioner::cpr<AMG, RelaxP>>(std::tie(m.n, m.ptr, m.col, m.val), params())); });
             else      compare_shuffled("cpr_drs", rl, key, s, LIM, [&](const Sys &m) { return applier(std::make_shared<preconditioner::cpr_drs<AMG, RelaxP>>(std::tie(m.n, m.ptr, m.col, m.val), params())); });
+            // refresh of an existing object: built once from the sorted system, then partial_update(K, update_transfer_ops)
+            // with K = the same matrix in every shuffled row order (the reference is the refresh with sorted rows)
+            for (int upd = 0; upd < 2; ++upd) {
+                std::string cls = std::string(drs ? "cpr_drs" : "cpr") + (upd ? ".partial_update_transfer" : ".partial_update_noxfer");
+                if (!drs) compare_shuffled(cls, rl, key, s, LIM, [&](const Sys &m) {
+                    auto P = std::make_shared<preconditioner::cpr<AMG, RelaxP>>(std::tie(s.n, s.ptr, s.col, s.val), params());
+                    P->partial_update(std::tie(m.n, m.ptr, m.col, m.val), (bool)upd);
+                    return applier(P); });
+                else compare_shuffled(cls, rl, key, s, LIM, [&](const Sys &m) {
+                    auto P = std::make_shared<preconditioner::cpr_drs<AMG, RelaxP>>(std::tie(s.n, s.ptr, s.col, s.val), params());
+                    P->partial_update(std::tie(m.n, m.ptr, m.col, m.val), (bool)upd);
+                    return applier(P); });
+            }
         }
         // schur pressure correction: pressure = even unknowns
         for (int type = 1; type <= 2; ++type) for (int adjust = 0; adjust <= 2; ++adjust) for (int approx = 0; approx < 2; ++approx) {
@@ -387,7 +400,7 @@ static void run_comp() {
             });
         }
     }
-    vf::space("cpr / cpr_drs (block size 2, 4 relaxations), schur_pressure_correction (type x adjust_p x approx_schur), make_block_solver<2x2>: two-phase systems with 2..5 (thorough: 9) cells; every in-row permutation (small) or single-row permutations + reversed + rotated");
+    vf::space("cpr / cpr_drs (block size 2, 4 relaxations; construction and partial_update with / without transfer-operator update), schur_pressure_correction (type x adjust_p x approx_schur), make_block_solver<2x2>: two-phase systems with 2..5 (thorough: 9) cells; every in-row permutation (small) or single-row permutations + reversed + rotated");
 }
 #endif
 
